@@ -26,7 +26,7 @@ class SymPattern:
         PATTERNS.append(self)
 
     def _sym(self, s, pos, full):
-        if self.flags & ~_re.UNICODE:
+        if self.flags & ~(_re.UNICODE | _re.IGNORECASE):
             raise E.Unsupported('regex flags %r' % self.flags)
         r = rematch.match(self.pattern, self.flags, s, pos, full)
         if r is None:
